@@ -358,6 +358,10 @@ func Run(c *ev.Ctx) {
 		actions = append(actions, ixn{action: "l7", perms: []perm{pm[i]}})
 	}
 	l7pairs := [][2]int{{0, 1}, {1, 0}, {2, 1}, {3, 4}, {4, 3}, {5, 1}, {6, 3}, {1, 3}}
+	corePair := map[string]bool{}
+	for _, p := range l7pairs {
+		corePair[pm[p[0]].label+"|"+pm[p[1]].label] = true
+	}
 	if !quick {
 		l7pairs = nil
 		for i := range pm {
@@ -387,6 +391,11 @@ func Run(c *ev.Ctx) {
 		for t := start; t < len(tuples); t++ {
 			for ai, a := range actions {
 				if len(cur) >= 1 && a.action == "l7" && len(a.perms) == 2 && quick && ai%2 == 0 {
+					continue
+				}
+				// thorough: all ordered permission pairs for sets of up to two intentions; a third intention
+				// carries allow / deny / a single permission / one of the eight core pairs (else 51^3 programs)
+				if !quick && len(cur) >= 2 && a.action == "l7" && len(a.perms) == 2 && !corePair[a.perms[0].label+"|"+a.perms[1].label] {
 					continue
 				}
 				x := a
